@@ -43,10 +43,10 @@ theorem vsum_le_of_vle {a b : List α} (h : vle a b) : vsum a ≤ vsum b := by
 
 /-! ### `np.minimum` is the lattice meet -/
 
-theorem vmin_length (x w : List α) (h : x.length = w.length) : (vmin x w).length = w.length := by
+theorem vmin_len (x w : List α) (h : x.length = w.length) : (vmin x w).length = w.length := by
   simp [vmin, h]
 
-theorem vmin_le_right (x w : List α) (h : x.length = w.length) : vle (vmin x w) w := by
+theorem vminLeRight (x w : List α) (h : x.length = w.length) : vle (vmin x w) w := by
   induction x generalizing w with
   | nil => cases w <;> simp_all [vmin, vle]
   | cons a x ih =>
@@ -56,7 +56,7 @@ theorem vmin_le_right (x w : List α) (h : x.length = w.length) : vle (vmin x w)
       simp only [List.length_cons, Nat.add_right_cancel_iff] at h
       exact List.Forall₂.cons (min_le_right a b) (ih w h)
 
-theorem vmin_le_left (x w : List α) (h : x.length = w.length) : vle (vmin x w) x := by
+theorem vminLeLeft (x w : List α) (h : x.length = w.length) : vle (vmin x w) x := by
   induction x generalizing w with
   | nil => cases w <;> simp_all [vmin, vle]
   | cons a x ih =>
